@@ -26,6 +26,9 @@ def split_mux(predicate):
                         i.store.set_state(state, i.key, new_predicate)
                         observer.on_next(rs.OnCompletedMux((i.key[0], i.key), i.store))
                         observer.on_next(rs.OnCreateMux((i.key[0], i.key), i.store))
+                    else:
+                        # each item is compared with the previous one, not with the first of the segment
+                        i.store.set_state(state, i.key, new_predicate)
 
                     observer.on_next(i._replace(key=(i.key[0], i.key)))
 
